@@ -390,6 +390,10 @@ fn components(engine: &str) -> Value {
             "real": ["xs::store::Store (append, insert_frame, remove, read, read_sync, get, head, gc worker, history thread)", "fjall 2.4.4 / lsm-tree (journal, memtable, forced flush + journal rotation, recovery on reopen)", "tokio runtime (current_thread) and channels", "scru128 id layout"],
             "stubbed": ["wall clock (simulated ms)", "id entropy and timestamp (seeded generator on the simulated clock)", "scheduling of the gc worker and history thread (released one step at a time by the seeded scheduler)", "read channel capacity (knob)", "restart (clean close + reopen, or byte copy of the live directory at a quiescent instant)"]
         }),
+        "e2" => json!({
+            "real": ["xs::store::Store::append / read / read_sync on real OS threads and tokio tasks", "tokio broadcast + mpsc channels, current_thread runtime (stepped)", "fjall write path"],
+            "stubbed": ["thread and task interleaving (every writer, history thread and live task parks at sync points and is released by the seeded chooser)", "clock (tokio paused clock + simulated wall clock, advanced by decisions)", "id entropy", "broadcast and delivery channel capacities (knobs)"]
+        }),
         _ => json!({}),
     }
 }
@@ -401,6 +405,11 @@ fn assumptions(engine: &str) -> Value {
             "fjall's background flush/compaction threads are not scheduled; flushes are forced from the foreground",
             "crash reopen in this engine is a copy taken at a quiescent instant (syscall-granular crash points are C04's engine)",
             "hooks are compiled in with --cfg xs_verif; with no controller installed they are no-ops"
+        ]),
+        "e2" => json!([
+            "sampling, not proof: verdict covers the schedules explored",
+            "interleavings are explored at the instrumented sync points (append: enter/id/committed/broadcast; read: subscribed, scan, each delivery, scanned, done, live start, each live receive); inside one tokio step tasks run in tokio's FIFO order",
+            "the gc worker is idle in these workloads (no head/time TTLs)"
         ]),
         _ => json!([]),
     }
